@@ -69,6 +69,9 @@ func check(t ev.TB, test string, c Case) {
 			ev.Label("has:" + k)
 		}
 	}
+	if _, ok := stats["matched"]; !ok && inconc == "" {
+		ev.Label("matched:0")
+	}
 	failing := stats["conv"] + stats["load"]
 	priorN := stats["prior-identical"] + stats["prior-stale"] + stats["prior-of-failing-package"] + stats["prior-unrelated"]
 	if inconc == "" && ((stats["matched"] >= 2 && failing >= 1) || priorN > 0) {
